@@ -5,6 +5,8 @@ import (
 	"fmt"
 	"time"
 
+	"github.com/google/go-tdx-guest/abi"
+	pb "github.com/google/go-tdx-guest/proto/tdx"
 	"github.com/google/go-tdx-guest/verify"
 	"github.com/google/go-tdx-guest/verify/trust"
 	"verif/sim/core"
@@ -70,4 +72,17 @@ func worldOpts(w *world.World, level int) *verify.Options {
 func refTimes() [5]time.Time {
 	ref := time.Date(2023, 7, 1, 1, 0, 0, 0, time.UTC)
 	return [5]time.Time{ref, ref, ref, ref, ref}
+}
+
+// parseMsg parses raw bytes with the real parser.
+func parseMsg(raw []byte) (*pb.QuoteV4, error) {
+	m, err := abi.QuoteToProto(raw)
+	if err != nil {
+		return nil, err
+	}
+	q, ok := m.(*pb.QuoteV4)
+	if !ok {
+		return nil, fmt.Errorf("unexpected message type %T", m)
+	}
+	return q, nil
 }
